@@ -42,6 +42,10 @@ claimed = {
    text="Same harness as C04 with the rule set of C05: for every (fid state, request) pair reached, a request that breaks a fid-state rule (walk from an open fid / by name from a non-directory, open of an open fid or of a directory not for reading, create through a non-directory or open fid or of a special file without .u, write through a fid not open for writing or a directory, read/write counts above msize-IOHDRSZ incl. 2^31 and 2^32-24..2^32-1) must be refused without any implementation call; every other request must be forwarded exactly once with the bound fid object, user and the arguments sent, its reply must equal what the implementation produced, and an attach reaches the implementation only after exactly one accepting AuthCheck when AuthOps is present.",
    note="As C04. Twrite counts above msize-23 cannot be expressed in a well-formed frame and are therefore only exercised for Tread.",
    technique="deterministic simulation: model-based histories against an executable reference model; refusal-before-forward and exactly-once-forward oracle over the invocation log"),
+ "C14": dict(level="exploration", ref="§4 C14",
+   text="Deterministic simulation of the whole stack — real client library, real server framework, real Ufs on a per-run scratch tree — over the simulated transport: 1..6 caller goroutines with several files open at once, file lengths around every iounit boundary, reads and writes through Clnt.Read/Write and the File helpers (Read, Write, ReadAt, WriteAt, Readn, Written) at offsets around 0, EOF and iounit multiples with counts around the iounit and several iounits; a byte-slice model per file decides every result and os.ReadFile is compared with the model after every write. iounit 128..65512 (limited further by the server's msize), both dialects, segmentation by policy.",
+   note="Trusts the host file system and os package, the instrumenter, the simulated transport. Each file is used by one caller (concurrent writers to one file have no single expected content).",
+   technique="deterministic simulation: full client+server+Ufs stack under seeded schedules and segmentation; byte-array reference model and os.ReadFile oracle"),
 }
 na = {
  "C01": "pure function of (fields, dialect): no schedule, clock, fault or interleaving; deterministic simulation does not apply (DESIGN.md §1)",
